@@ -23,3 +23,4 @@ def rules(ctx):
     S.root_pair_rules(ctx)
     S.replaced_range_rules(ctx)
     S.survey_residue_rules(ctx)
+    S.relocation_content_rules(ctx)
